@@ -1,5 +1,6 @@
 import Driver.Registry
 import Driver.Gated
+import Driver.Dispatch
 open Driver
 
 def main (args : List String) : IO UInt32 := do
@@ -8,4 +9,5 @@ def main (args : List String) : IO UInt32 := do
   match args with
   | ["registry"] => loop stdin stdout Driver.Registry.stepLine Evl.Registry.init; return 0
   | ["gated"] => loop stdin stdout Driver.Gated.stepLine {}; return 0
+  | ["dispatch"] => loop stdin stdout Driver.Dispatch.stepLine {}; return 0
   | _ => IO.eprintln "usage: evldriver <model>"; return 2
